@@ -91,6 +91,11 @@ type qry struct {
 	closed     bool
 	iterated   int
 	held       []int64
+	selected   bool // Select + series enumeration done, samples not yet read
+	sel        []storage.Series
+	chunk      bool // created through DB.ChunkQuerier (no sites inside: created in one piece)
+	cq         storage.ChunkQuerier
+	csel       []storage.ChunkSeries
 }
 
 type output struct {
@@ -191,6 +196,75 @@ func (c *caseRun) appendOne(sid, t, v int64) bool {
 	}
 	c.sampleIndex(smp{sid, t, v})
 	return true
+}
+
+// corpusHistory: two series with in-order data from 1000 and enough out-of-order samples around
+// 700-900 to have m-mapped OOO chunks (cap 2) besides the OOO head chunks.
+func (c *caseRun) corpusHistory() string {
+	v := int64(1)
+	for t := int64(1000); t <= 1330; t += 30 {
+		for s := int64(0); s < 2; s++ {
+			if c.appendOne(s, t+s, v) {
+				v++
+			}
+		}
+	}
+	for i, t := range []int64{810, 790, 850, 705, 880, 760, 830} {
+		if c.appendOne(int64(i%2), t, v) {
+			v++
+		}
+	}
+	c.nacked = len(c.table)
+	return fmt.Sprintf("corpus(samples=%d)", len(c.table))
+}
+
+// corpusGcWindow is the fixed reproducer placement for out-of-order compactions: an older querier
+// keeps truncateOOO parked in its reader wait; a second querier is created and Select'ed after
+// the gc reference was published but before the collection; the collection then runs; only after
+// the whole run the second querier reads its samples.
+func (c *caseRun) corpusGcWindow() {
+	until := func(site string) {
+		for i := 0; i < 200 && !c.comp.done && !c.comp.parked && c.lastSite != site; i++ {
+			c.advance(c.comp)
+		}
+	}
+	full := func() *qry {
+		q := c.newQuerierRange(c.minT-5, c.maxT+5)
+		for !q.act.done && !q.act.parked {
+			c.advance(q.act)
+		}
+		return q
+	}
+	until("c06.ooo.started")
+	q1 := full() // older reader: registered with the previous gc reference
+	until("c06.ooo.gcref_published")
+	if c.lastSite != "c06.ooo.gcref_published" {
+		c.problem("corpus: the run did not reach c06.ooo.gcref_published (at %q)", c.lastSite)
+		return
+	}
+	q2 := full() // registered with the new reference: truncateOOO will not wait for it
+	c.selectQ(q2)
+	q3 := c.newChunkQuerier(c.minT-5, c.maxT+5) // the same placement on the ChunkQuerier path
+	if q3 != nil {
+		c.selectQ(q3)
+	}
+	c.advance(c.comp) // parks in WaitForPendingReadersForOOOChunksAtOrBefore because of q1
+	if !c.comp.parked {
+		c.dist["corpus:truncateOOO-did-not-wait"]++
+	}
+	c.iterate(q1)
+	c.closeQ(q1)
+	for i := 0; i < 200 && !c.comp.done && !c.comp.parked; i++ {
+		c.advance(c.comp)
+	}
+	c.iterate(q2) // reads the chunks planned before the collection
+	c.iterate(q2)
+	c.closeQ(q2)
+	if q3 != nil {
+		c.iterate(q3)
+		c.closeQ(q3)
+	}
+	c.dist["corpus:gc-window"]++
 }
 
 func (c *caseRun) buildHistory() string {
@@ -783,27 +857,91 @@ func (c *caseRun) newQuerierRange(mint, maxt int64) *qry {
 	return q
 }
 
+// selectQ runs Select and enumerates the series (which fixes the chunks each series will read:
+// blockSeriesSet.At copies the chunk metas) but reads no sample yet; a later iterate reads them.
+func (c *caseRun) selectQ(q *qry) {
+	if !q.created || q.closed || q.selected {
+		return
+	}
+	defer func() {
+		if p := recover(); p != nil {
+			c.problem("panic in Select: %v", p)
+		}
+	}()
+	if q.chunk {
+		ss := q.cq.Select(context.Background(), true, nil, tsdbx.MatchAll("a"))
+		q.csel = nil
+		for ss.Next() {
+			q.csel = append(q.csel, ss.At())
+		}
+		if ss.Err() != nil {
+			c.problem("chunk select error: %v", ss.Err())
+		}
+	} else {
+		ss := q.q.Select(context.Background(), true, nil, tsdbx.MatchAll("a"))
+		q.sel = nil
+		for ss.Next() {
+			q.sel = append(q.sel, ss.At())
+		}
+		if ss.Err() != nil {
+			c.problem("select error: %v", ss.Err())
+		}
+	}
+	q.selected = true
+	c.dist["select:split-from-iteration"]++
+}
+
 func (c *caseRun) iterate(q *qry) {
 	if !q.created || q.closed {
 		return
 	}
-	ss := q.q.Select(context.Background(), true, nil, tsdbx.MatchAll("a"))
+	if !q.selected {
+		c.selectQ(q)
+		c.dist["select:split-from-iteration"]--
+	} else {
+		c.dist["iterate:after-earlier-select"]++
+	}
 	var res []int
-	for ss.Next() {
-		s := ss.At()
-		sid := sidOf(s.Labels().String())
-		it := s.Iterator(nil)
-		for it.Next() == chunkenc.ValFloat {
-			t, v := it.At()
-			res = append(res, c.sampleIndex(smp{sid, t, int64(v)}))
+	func() {
+		defer func() {
+			if p := recover(); p != nil {
+				c.problem("panic while iterating: %v", p)
+			}
+		}()
+		for _, s := range q.csel {
+			// chunk path: decode every chunk; chunks may reach beyond the range (chunk granularity)
+			sid := sidOf(s.Labels().String())
+			ci := s.Iterator(nil)
+			for ci.Next() {
+				m := ci.At()
+				it := m.Chunk.Iterator(nil)
+				for it.Next() == chunkenc.ValFloat {
+					t, v := it.At()
+					if t >= q.mint && t <= q.maxt {
+						res = append(res, c.sampleIndex(smp{sid, t, int64(v)}))
+					}
+				}
+				if it.Err() != nil {
+					c.problem("chunk decode error: %v", it.Err())
+				}
+			}
+			if ci.Err() != nil {
+				c.problem("chunk iterator error: %v", ci.Err())
+			}
 		}
-		if it.Err() != nil {
-			c.problem("iterator error: %v", it.Err())
+		for _, s := range q.sel {
+			sid := sidOf(s.Labels().String())
+			it := s.Iterator(nil)
+			for it.Next() == chunkenc.ValFloat {
+				t, v := it.At()
+				res = append(res, c.sampleIndex(smp{sid, t, int64(v)}))
+			}
+			if it.Err() != nil {
+				c.problem("iterator error: %v", it.Err())
+			}
 		}
-	}
-	if ss.Err() != nil {
-		c.problem("select error: %v", ss.Err())
-	}
+	}()
+	q.selected, q.sel, q.csel = false, nil, nil
 	q.iterated++
 	c.emit("q.iter", tQIter, []int64{q.id}, nil)
 	c.outs = append(c.outs, output{q.id, res})
@@ -816,12 +954,48 @@ func (c *caseRun) closeQ(q *qry) {
 	if !q.created || q.closed {
 		return
 	}
-	if err := q.q.Close(); err != nil {
+	var err error
+	if q.chunk {
+		err = q.cq.Close()
+	} else {
+		err = q.q.Close()
+	}
+	if err != nil {
 		c.problem("querier close: %v", err)
 	}
 	q.closed = true
 	c.emit("q.close", tQClose, []int64{q.id}, nil)
 	c.recheck()
+}
+
+// newChunkQuerier creates a DB.ChunkQuerier in one piece (blockChunkQuerierForRange has the same
+// structure as Querier but no sites). It is only used while the maintenance goroutine is paused at
+// a site or parked in a polling wait (never while it queues on db.mtx), so the values
+// the creation reads are stable and the three model events can be emitted together.
+func (c *caseRun) newChunkQuerier(mint, maxt int64) *qry {
+	if c.comp.parked && c.comp.wait == "db.mtx.Lock" {
+		return nil
+	}
+	h := c.db.DB.Head()
+	hashead := maxt >= h.MinTime() || (mint <= h.MaxOOOTime() && h.MinOOOTime() <= maxt)
+	q := &qry{id: int64(len(c.qs) + 1), mint: mint, maxt: maxt, chunk: true, act: &actor{name: "cq", done: true}}
+	cq, err := c.db.DB.ChunkQuerier(mint, maxt)
+	c.qs = append(c.qs, q)
+	if err != nil {
+		c.problem("ChunkQuerier(%d,%d) failed: %v", mint, maxt, err)
+		q.closed = true
+		return q
+	}
+	q.cq = cq
+	c.emitBegin(q)
+	if hashead {
+		q.opened = true
+		c.emit("cq.open_head", tQOpenHead, []int64{q.id}, nil)
+	}
+	q.created = true
+	c.emit("cq.finish", tQFinish, []int64{q.id}, nil)
+	c.dist["querier:chunk"]++
+	return q
 }
 
 func (c *caseRun) live() (creating, open []*qry) {
@@ -845,6 +1019,12 @@ func (c *caseRun) randomAction(busy int) {
 	case x < 30:
 		c.advance(c.comp)
 	case x < 30+busy && len(creating)+len(open) < 3:
+		if r.Chance(1, 5) {
+			mint, maxt := c.pickRange()
+			c.newChunkQuerier(mint, maxt)
+			c.recheck()
+			return
+		}
 		q := c.newQuerier()
 		c.advance(q.act)
 		if r.Chance(1, 3) { // atomic creation
@@ -855,7 +1035,11 @@ func (c *caseRun) randomAction(busy int) {
 	case x < 75 && len(creating) > 0:
 		c.advance(gen.Pick(r, creating).act)
 	case x < 88 && len(open) > 0:
-		c.iterate(gen.Pick(r, open))
+		if q := gen.Pick(r, open); r.Chance(1, 4) {
+			c.selectQ(q) // the samples are read by a later iterate (at the latest in drain)
+		} else {
+			c.iterate(q)
+		}
 	case len(open) > 0:
 		q := gen.Pick(r, open)
 		if q.iterated == 0 || r.Chance(1, 2) {
@@ -962,19 +1146,32 @@ func runCase(seed uint64, idx int, root string) (res result) {
 	r := gen.Fork(seed, idx)
 	c := &caseRun{idx: idx, r: r, index: map[smp]int{}, blocks: map[string]*blk{}, dist: map[string]int{}}
 	c.prog = gen.Pick(r, []string{"compact", "compact", "planner", "planner", "planner", "ooo", "merge", "merge"})
+	corpus := idx < 2
+	if corpus {
+		c.prog = []string{"ooo", "compact"}[idx]
+	}
 	dir, err := os.MkdirTemp(root, "db")
 	if err != nil {
 		panic(err)
 	}
 	defer os.RemoveAll(dir)
 	c.dir = dir
-	db, err := tsdbx.Open(dir, tsdbx.Options{BlockRange: blockRange, OOOWindow: 100000, OOOCapMax: int64(r.PickI64(2, 4, 32))})
+	capMax := r.PickI64(2, 4, 32)
+	if corpus {
+		capMax = 2
+	}
+	db, err := tsdbx.Open(dir, tsdbx.Options{BlockRange: blockRange, OOOWindow: 100000, OOOCapMax: capMax})
 	if err != nil {
 		panic(err)
 	}
 	c.db = db
 	defer db.DB.Close()
-	hist := c.buildHistory()
+	var hist string
+	if corpus {
+		hist = c.corpusHistory()
+	} else {
+		hist = c.buildHistory()
+	}
 	c.snapshot()
 
 	var mergeIDs []string
@@ -1001,36 +1198,41 @@ func runCase(seed uint64, idx int, root string) (res result) {
 		}
 	})
 
-	// placement: let the maintenance run take k steps undisturbed, then interleave densely
-	place := idx % 26
-	if r.Chance(1, 5) {
-		place = 0
-	}
-	if r.Chance(1, 4) { // a querier that is open before the run starts
-		q := c.newQuerier()
-		for !q.act.done {
-			c.advance(q.act)
+	place := -2
+	if corpus {
+		c.corpusGcWindow()
+	} else {
+		// placement: let the maintenance run take k steps undisturbed, then interleave densely
+		place = idx % 26
+		if r.Chance(1, 5) {
+			place = 0
 		}
-	}
-	if c.prog == "planner" && r.Chance(1, 2) {
-		// start interleaving where block compaction (and the deletion of its parents) begins
-		for i := 0; i < 200 && !c.comp.done && !c.comp.parked && c.lastSite != "c06.ooo.done"; i++ {
+		if r.Chance(1, 4) { // a querier that is open before the run starts
+			q := c.newQuerier()
+			for !q.act.done {
+				c.advance(q.act)
+			}
+		}
+		if c.prog == "planner" && r.Chance(1, 2) {
+			// start interleaving where block compaction (and the deletion of its parents) begins
+			for i := 0; i < 200 && !c.comp.done && !c.comp.parked && c.lastSite != "c06.ooo.done"; i++ {
+				c.advance(c.comp)
+			}
+			place = -1
+			c.dist["placement:at-block-compaction"]++
+		}
+		for i := 0; i < place && !c.comp.done; i++ {
 			c.advance(c.comp)
 		}
-		place = -1
-		c.dist["placement:at-block-compaction"]++
-	}
-	for i := 0; i < place && !c.comp.done; i++ {
-		c.advance(c.comp)
-	}
-	if idx%3 == 1 {
-		c.dist["mode:hold"]++
-		c.holdLoop()
-	} else {
-		c.dist["mode:random"]++
-		steps := 25 + r.Intn(40)
-		for i := 0; i < steps; i++ {
-			c.randomAction(35)
+		if idx%3 == 1 {
+			c.dist["mode:hold"]++
+			c.holdLoop()
+		} else {
+			c.dist["mode:random"]++
+			steps := 25 + r.Intn(40)
+			for i := 0; i < steps; i++ {
+				c.randomAction(35)
+			}
 		}
 	}
 	c.drain()
@@ -1071,6 +1273,7 @@ func u(v int64) string {
 	return fmt.Sprint(v)
 }
 func ut(t int64) string { return u(clampT(t) + tOff) }
+
 // il prints a monomorphic integer list (C_ a (C_ b N_)).
 func il(items []string) string {
 	if len(items) == 0 {
@@ -1099,6 +1302,7 @@ func tlist(vs []int64) string {
 	}
 	return il(it)
 }
+
 // ilist prints table indices run-length encoded: start, length, start, length, ...
 func (c *caseRun) ilist(vs []int) string {
 	var it []string
